@@ -16,6 +16,7 @@ type C02Case struct {
 	P     *ref.Problem `json:"p"`
 	Front string       `json:"front"` // card | pb
 	Limit int          `json:"limit"`
+	Heavy bool         `json:"heavy,omitempty"` // a unit constraint fixes the heaviest literal of a weighted constraint
 }
 
 var c02Counts = map[string]int{"quick": 80_000, "thorough": 2_000_000}
@@ -31,6 +32,34 @@ func c02Gen(r *gen.Rng, tier string, idx int) interface{} {
 		c.P = gen.RandomPBProblem(r, gen.PBOpts{MinVars: 1, MaxVars: 10, MaxW: r.Range(1, 6), NegCoefs: true, MaxCons: 8, Hard: hard})
 	}
 	c.Limit = []int{0, 0, 3}[r.Intn(3)]
+	if c.Front == "pb" && r.Chance(1, 5) {
+		// a unit constraint fixing the literal with the largest coefficient of a weighted constraint: the parser
+		// removes that literal, which leaves the constraint with its literals in an unusual order
+		var cand []int
+		for i, l := range c.P.Cons {
+			if len(l.Coefs) >= 3 {
+				cand = append(cand, i)
+			}
+		}
+		if len(cand) > 0 {
+			l := c.P.Cons[cand[r.Intn(len(cand))]]
+			best := 0
+			for i, w := range l.Coefs {
+				if abs(w) > abs(l.Coefs[best]) {
+					best = i
+				}
+			}
+			u := l.Lits[best]
+			if r.Bool() {
+				u = -u
+			}
+			pos := r.Intn(len(c.P.Cons) + 1)
+			c.P.Cons = append(c.P.Cons, ref.Lin{})
+			copy(c.P.Cons[pos+1:], c.P.Cons[pos:])
+			c.P.Cons[pos] = ref.Cl(u)
+			c.Heavy = true
+		}
+	}
 	return c
 }
 
@@ -77,6 +106,9 @@ func c02Run(ci interface{}, rec *Rec) {
 		n = c.P.N
 	}
 	expSat := c.P.Sat(n)
+	if c.Heavy {
+		rec.Count("cases_with_heaviest_literal_fixed_by_a_unit", 1)
+	}
 	scen := fmt.Sprintf("%s+Solve/limit=%d", map[string]string{"card": "ParseCardConstrs", "pb": "ParsePBConstrs"}[c.Front], c.Limit)
 	SetLearnedLimit(c.Limit, true)
 	var pb *solver.Problem
